@@ -44,10 +44,10 @@ Print Assumptions C09_open_complete.
 Print Assumptions C09_fail_is_netconf_error.
 
 (* ---- the decision logic is the source's: translated statement by statement on this run ---- *)
-From Scrapli Require Import DecideLang GeneratedSkel Decide.
+From Scrapli Require Import DecideLang GeneratedSkel DecideDV.
 
 (* gen/decide.go translates the body of Driver.determineVersion (driver/netconf/capabilities.go)
-   into GeneratedSkel.determine_version_code; Decide.dv_run interprets it.  For EVERY capability
+   into GeneratedSkel.determine_version_code; DecideDV.dv_run interprets it.  For EVERY capability
    list and EVERY preference the translated source selects the version the model selects, fails
    exactly when the model fails, and leaves the channel's prompt pattern on the delimiter of the
    selected version ("all later traffic uses the selected framing") *)
@@ -60,8 +60,17 @@ Print Assumptions C09_determine_version_is_source.
 (* ... and the capability test it relies on, Driver.ServerHasCapability as the source has it on this
    run (a range loop over the server's list), is EXACT membership: for every capability and every
    list, of any length *)
-From Scrapli Require Import DecideLoops NetconfSrc.
+From Scrapli Require Import DecideLemmas CapabilitySrc.
 Theorem C09_server_has_capability_is_source : forall s caps,
   shc_run s caps = Some (existsb (fun c => beqb c s) caps).
 Proof. exact server_has_capability_is_source. Qed.
 Print Assumptions C09_server_has_capability_is_source.
+
+(* every test that the translated functions of this property make is one the environments of their
+   ties were written for: a test that is new in the source breaks this (an unknown equality would
+   otherwise evaluate to false without notice) *)
+From Scrapli Require Import DecideLang GeneratedSkel DecideDV.
+Theorem C09_source_tests_known :
+  tests_known determine_version_code determine_version_known = true.
+Proof. exact determine_version_tests_known. Qed.
+Print Assumptions C09_source_tests_known.
